@@ -114,7 +114,7 @@ func vpC13Check(b []byte, t *TransportLayerCC, count int) {
 	vpObserveU64("ndeltas", uint64(len(t.RecvDeltas)))
 }
 
-// VpC13_Skeleton: a[0] selects one of 14 chunk sequences (mixes of run-length,
+// VpC13_Skeleton: a[0] selects one of 17 chunk sequences (mixes of run-length,
 // one-bit and two-bit vector chunks, runs longer than the remaining count,
 // vectors overshooting it, chunks ending exactly at the packet end), a[1] the
 // number of surplus octets after the required deltas (negative: missing
@@ -201,6 +201,12 @@ func vpC13Skeleton(id int) ([]uint16, int, int) {
 		return []uint16{v1(1, 1, 1), v1(0, 1)}, 16, 4 // a second vector although the first has spare symbols
 	case 13:
 		return []uint16{v2(2, 0, 0, 0, 0, 0, 2), run(2, 3)}, 10, 2*2 + 3*2
+	case 14:
+		return []uint16{run(1, 1), run(1, 3)}, 3, 3 // a later run longer than what is still outstanding
+	case 15:
+		return []uint16{v1(1, 0, 1, 0, 1, 0, 1, 0, 1, 0, 1, 0, 1, 0), run(2, 5)}, 16, 7 + 4 // run after a vector, clipped to 2
+	case 16:
+		return []uint16{run(0, 2), run(1, 2), run(2, 9)}, 6, 2 + 4 // third run clipped to 2
 	}
 	panic("no such skeleton")
 }
